@@ -198,6 +198,10 @@ def _translate_metadata_to_ds9(region, shape):
     if fill is not None:
         meta['fill'] = int(fill)
 
+    if 'include' in meta:
+        # DS9 wants include=1/0 (True/False is not understood by readers)
+        meta['include'] = int(bool(meta['include']))
+
     if 'text' in meta:
         meta['text'] = f'{{{meta["text"]}}}'
 
